@@ -93,15 +93,29 @@ func newWSHandler(host string, dial dialFunc, conn gkm.Gauge) http.Handler {
 
 		out.SetReadDeadline(time.Time{})
 
+		// When one side signals EOF the write side of the other connection
+		// is closed so that the peer sees the EOF as well but can still
+		// send its remaining data (TCP half-close). The tunnel ends when
+		// both directions are done, when copying fails or when the EOF
+		// cannot be passed on.
 		errc := make(chan error, 2)
-		cp := func(dst io.Writer, src io.Reader) {
+		cp := func(dst net.Conn, src io.Reader) {
 			_, err := io.Copy(dst, src)
+			if err == nil {
+				cw, ok := dst.(interface{ CloseWrite() error })
+				if !ok || cw.CloseWrite() != nil {
+					err = io.EOF
+				}
+			}
 			errc <- err
 		}
 
 		go cp(out, in)
 		go cp(in, out)
 		err = <-errc
+		if err == nil {
+			err = <-errc
+		}
 		if err != nil && err != io.EOF {
 			log.Printf("[INFO] WS error for %s. %s", r.URL, err)
 		}
